@@ -110,6 +110,12 @@ def run_shard(rec):
                     continue
                 run_case(rec, src, 7 + rec.seed, cfg, twin)
                 rec.count("enumerated-allcfg")
+            if sk.has_loop(b):
+                # the same skeleton with assignment expressions in every loop header (test / iterable)
+                wsrc = sk.render(b, place, walrus=True)
+                for cfg in (envs.CFGS[(idx + rec.seed) % 8], envs.CFGS[(idx + rec.seed + 3) % 8]):
+                    run_case(rec, wsrc, 11 + rec.seed, cfg, sk.render(b, place, True, walrus=True))
+                    rec.count("enumerated-walrus-headers")
     # ---- biased random deep sampler
     n = size["rand"]
     rng = random.Random(rec.seed * 1000003 + rec.shard)
@@ -123,8 +129,11 @@ def run_shard(rec):
             rec.count("random-long-flat")
         else:
             b = sk.rand_block(rng, 5, False, sk.PLACE_IN_FUNC[place], [rng.randint(6, 14)])
-        src = sk.render(b, place)
-        twin = sk.render(b, place, True) if sk.has_interrupt(b) else None
+        wal = rng.random() < 0.2
+        src = sk.render(b, place, walrus=wal)
+        twin = sk.render(b, place, True, walrus=wal) if sk.has_interrupt(b) else None
+        if wal:
+            rec.count("random-walrus-headers")
         cfg = envs.CFGS[rng.randrange(8)]
         sched = rng.randint(1, 10 ** 6)
         o = run_case(rec, src, sched, cfg, twin)
